@@ -201,6 +201,14 @@ def run_family(prop, tier, plan, free_plan, assumptions, mc_extra=(), post=None,
                         ts = rng.randint(max(0, top - c["moo"]), top) if rng.random() < 0.9 else top + 1     # ties and in-bound stragglers of several keys
                     top = max(top, ts)
                     steps.append({"a": "add", "id": i, "ts": ts, "gap": gap})
+                if kind != "session" and top < c["size"] - 1 and rng.random() < 0.7:
+                    # the source resumes after the idle flush with rows ABOVE every earlier timestamp but inside the flushed interval:
+                    # they are behind the (wall-clock) watermark, hence late - the interval is not reported a second time
+                    steps.append({"a": "idlewait"})
+                    for k in range(rng.choice([1, 2, 3])):
+                        if top < c["size"] - 1:
+                            top += 1
+                            steps.append({"a": "add", "id": len([s_ for s_ in steps if s_["a"] == "add"]) + 1, "ts": top, "gap": gap})
                 if kind == "session":
                     for st in steps:
                         st["g"] = rng.choice(["a", "b", "c"])
